@@ -1,5 +1,6 @@
 import Snel.Lemmas.ShardWal
 import Snel.Lemmas.WalBuf
+import Snel.Lemmas.ShardFail
 /-!
 # C01 — applied writes survive any crash and restart, exactly once
 
@@ -150,6 +151,20 @@ theorem C01_exactly_once_fails :
 
 /-- Non-vacuity of `C01_store_durable_partial`: a reachable state with a linked log. -/
 example : (runOps (Shard.init 2 2) [.store ⟨1,0,0⟩, .store ⟨2,0,0⟩, .drain]).walOrphan = false := by decide
+
+/-- Beyond the property's quantifier (it lists no I/O error): after a FAILED flush the rows of the
+failed job live only in its retained passive buffer and in the WAL; the cleanup of the next
+successful flush deletes that log (`cleanup_up_to(segment_id + 1)`, the arithmetic of finding
+C01-wal-segment-id-skew), and a crash then loses acknowledged, visible events. Witness
+(capacity 2): two stores rotate, the flush fails, two more stores rotate and flush; events 1 and 2
+are visible before the kill and gone after the restart. Replayed on the real engine by a witness
+of the `crash` stream, which also draws failing flushes at random. -/
+theorem C01_failed_flush_then_crash_loses_fails :
+    ∃ ops : List FOp,
+      1 ∈ visibleKeys (runF (Shard.init 2 2) ops) ∧
+      1 ∉ visibleKeys (restart (crash (runF (Shard.init 2 2) ops))) :=
+  ⟨[.op (.store ⟨1,0,0⟩), .op (.store ⟨2,0,0⟩), .fail, .op (.store ⟨3,0,0⟩), .op (.store ⟨4,0,0⟩),
+    .op .drain], by decide, by decide⟩
 
 /-! ## The WAL file at byte level (`Snel.Model.WalBuf`)
 
